@@ -417,3 +417,37 @@ Definition ext_missing (obl real : list seq) : list seq := filter (fun s => negb
 (* translation stage without record semantics: n = number of distinct ids of the two graphs *)
 Definition dedup_seqs (l : list seq) : list seq :=
   fold_right (fun s acc => if mem_seq s acc then acc else s :: acc) [] l.
+
+(* --- membership of a string in the language of a graph without enumerating the language: walk the graph along
+   the string (Proofs/BubbleProofs.v accepts_spec: = In s (strings (lang_fin g (sink g) fuel n))) *)
+Fixpoint strip (l s : seq) : option seq :=
+  match l, s with
+  | [], _ => Some s
+  | a :: l', b :: s' => if a =? b then strip l' s' else None
+  | _ :: _, [] => None
+  end.
+Fixpoint accepts (g : graph) (fuel n : nat) (s : seq) : bool :=
+  match fuel with
+  | O => false
+  | S f =>
+      match strip (lab g n) s with
+      | None => false
+      | Some rest =>
+          match succs g n with
+          | [] => is_nil rest
+          | ss => existsb (fun m => accepts g f m rest) ss
+          end
+      end
+  end.
+(* the real string s of reading frame off is spelled by the bubble graph of one of the backbones ys *)
+Definition ext_accepted (off : nat) (ys : list input) (s : seq) : bool :=
+  existsb (fun y => let g := add_bubbles (in_tx y) (in_vars y) in
+                    accepts g (length g) 0 (firstn off (in_tx y) ++ s)) ys.
+Definition ext_unsound_fast (off : nat) (ys : list input) (real : list seq) : list seq :=
+  filter (fun s => negb (ext_accepted off ys s)) real.
+
+(* tr_extra / tr_missing on DNA words that are already translated (each translation computed once) *)
+Definition tr_extra_pre (n : nat) (ttr pvg : list (seq * list Z)) : list (seq * list Z) :=
+  filter (fun p => negb (existsb (fun t => same_ids n (snd p) (snd t) && aa_matches (fst p) (fst t)) ttr)) pvg.
+Definition tr_missing_pre (n : nat) (ttr pvg : list (seq * list Z)) : list (seq * list Z) :=
+  filter (fun t => negb (existsb (fun p => same_ids n (snd p) (snd t) && aa_matches (fst p) (fst t)) pvg)) ttr.
